@@ -62,12 +62,15 @@ where
             )
             .await?; // cancel safe
 
+            // Only the first transfer of a delivery carries the delivery-tag: the
+            // session assigns a delivery-id to every transfer that has one
+            transfer.delivery_tag = None;
+            transfer.message_format = None;
+            transfer.settled = None;
+
             // Send the transfers in the middle
             while payload.len() > self.max_message_size as usize {
                 let partial = payload.split_to(self.max_message_size as usize);
-                transfer.delivery_tag = None;
-                transfer.message_format = None;
-                transfer.settled = None;
                 send_transfer(
                     writer,
                     input_handle.clone(),
